@@ -11,8 +11,16 @@ Scenario: two values.  value ::= :b 0|1 | :i <ty 0..5> <z> | :d <bits> <tolbits>
      store    :cpp andReturnValue(T) | :c the C table's andReturnXValue(T)
      accessor :bool :int :uint :long :ulong :llong :ullong :double :string :ptr :cptr :fptr :mem
      default  :b x | :i z | :d bits | :s bytes | :a addr | :m bytes   (of the accessor's type; used by the OrDefault families only)
+  or RE-USED value objects (a second / third store into the same MockNamedValue):
+  :ru <box> <family> <nA> <value>*nA <nB> <value>*nB
+     box      :named a MockNamedValue (setValue / setMemoryBuffer nA times) | :ret / :retc the return value of ONE expectation
+              (andReturnValue / the C table's andReturnXValue nA times) | :data / :datac ONE slot of mock().setData / mock_c()->setXData (nA times under one name)
+     object A (in the box) receives the nA values in order, object B (a MockNamedValue) the nB values; A is read through the 13
+     accessors of the family (:nv for :named and :data; for :ret / :retc also the ten call families) and compared with B both ways
 Observation: equals(a,b) equals(b,a) and the six integer getters applied to a ('~' = the getter failed the test);
-  for :rd what came back: :b x | :i z | :d bits | :s content | :a addr | :m bytes | :fail (test failed / tag names another member)."""
+  for :rd what came back: :b x | :i z | :d bits | :s content | :a addr | :m bytes | :fail (test failed / tag names another member);
+  for :ru A.equals(B) B.equals(A) and the 13 accessor results (bool, the six integer ones, double, string, void*, const void*, function
+  pointer, memory buffer), each as for :rd."""
 import itertools
 from vlib import tz, tb
 ID = "C09"
@@ -28,9 +36,17 @@ RULE = ("exhaustive over the 36 integer type pairs x boundary lattice {min, -2^3
         "paths, with a default different from the stored value; every non-integer stored kind x every accessor x every family; nothing "
         "stored x every accessor x every family; thorough adds random 64-bit values and random arenas up to 48 bytes, and random reads. "
         "non-trivial = the two values are of the same kind (so the comparison is not decided by the tag alone) or a getter applies; "
-        "for a read: a value was stored")
+        "for a read: a value was stored; re-used objects (:ru): for every box (MockNamedValue, return value of one expectation through the "
+        "C++ and the C interface, setData slot through the C++ and the C interface) every ordered pair (earlier store, last store) of {6 integer types x boundary values, bool, "
+        "double classes, NULL / heap strings, the three pointer kinds with 64-bit patterns, buffers} -- earlier stores chosen for what they "
+        "leave under a narrower member (non-zero upper half, sign bits, double and pointer bit patterns) -- read through all 13 accessors "
+        "and compared both ways with (a) a new object holding the last value, (b) a new object holding the EARLIER value, (c) the same "
+        "integer in another type on an object that was itself re-used; three stores in a row; the ten call families on a re-used return "
+        "value; thorough adds random store sequences up to 4 + 3 long. non-trivial for :ru = some object received more than one store")
 ASSUMPTIONS = ["LP64 data model (int 32, long 64, long long 64)", "values are in range of their declared C type (setValue takes a T)",
-               "reads: one expected call with the return value, one matching actual call, the unscoped mock(); defaults of the accessor's own type"]
+               "reads: one expected call with the return value, one matching actual call, the unscoped mock(); defaults of the accessor's own type",
+               "re-used objects: little-endian LP64 union layout (first 8 bytes shared by all members, the tolerance in the second 8); "
+               "andReturnValue(double) / setData(double) store the default tolerance 0.005"]
 LO = [-(1 << 31), 0, -(1 << 63), 0, -(1 << 63), 0]
 HI = [(1 << 31) - 1, (1 << 32) - 1, (1 << 63) - 1, (1 << 64) - 1, (1 << 63) - 1, (1 << 64) - 1]
 LATTICE = sorted(set([-(1 << 63), -(1 << 63) + 1, -(1 << 31) - 1, -(1 << 31), -(1 << 31) + 1, -129, -128, -2, -1, 0, 1, 2, 127, 128, 255, 256,
@@ -189,6 +205,156 @@ def read_family(tier, rng):
     return out
 
 
+# ---- re-used value objects ----
+DTOL = 0x3f747ae147ae147b          # MockNamedValue::defaultDoubleTolerance = 0.005
+BOXES = [":named", ":ret", ":retc", ":data", ":datac"]
+
+
+def dval(bits, tol=DTOL):
+    return ":d %x %x" % (bits, tol)
+
+
+def vlen(tag):
+    return 3 if tag in (":i", ":d") else 2
+
+
+def ru_parse(s):
+    """(box, family, [A's values as token lists], [B's values])"""
+    t = s.split()
+    i = 3
+    lists = []
+    for _ in range(2):
+        n = int(t[i], 16); i += 1
+        l = []
+        for _ in range(n):
+            k = vlen(t[i]); l.append(t[i:i + k]); i += k
+        lists.append(l)
+    return t[1], t[2], lists[0], lists[1]
+
+
+def ru(box, fam, a, b):
+    """a, b: lists of value strings"""
+    return ":ru %s %s %x %s %x %s" % (box, fam, len(a), " ".join(a), len(b), " ".join(b))
+
+
+def box_takes(box, v):
+    t = v.split()
+    if box == ":named":
+        return True
+    if t[0] == ":m":
+        return False
+    if box in (":data", ":datac") and t[0] == ":i" and int(t[1], 16) >= 2:
+        return False
+    if t[0] == ":d" and int(t[2], 16) != DTOL:
+        return False
+    return True
+
+
+def vkind(t):
+    """what a stored value occupies in the union"""
+    if t[0] == ":i":
+        return "4-byte integer" if int(t[1], 16) < 2 else "8-byte integer"
+    return {":b": "bool", ":d": "double", ":s": "string", ":p": "pointer", ":cp": "pointer", ":f": "pointer", ":m": "buffer"}[t[0]]
+
+
+# earlier stores, chosen for what they leave behind under a narrower member: non-zero upper halves, sign bits, double / pointer patterns
+STALE = ([ival(3, (1 << 32) + 7), ival(3, (1 << 64) - 1), ival(4, -1), ival(4, -(1 << 63)), ival(5, (1 << 64) - (1 << 32)), ival(5, 1 << 63),
+          ival(2, -(1 << 31) - 1), ival(2, 1 << 32), ival(0, -1), ival(0, (1 << 31) - 1), ival(1, (1 << 32) - 1), ival(1, 7),
+          dval(0x3ff8000000000000), dval(0xfff0000000000000), dval(0x7ff8000000000000), dval(0x8000000000000000), dval(0x3ff0000000000001),
+          ":p 7ffdeadbeef0", ":cp ffffffffffffffff", ":f 555555555000", ":p 0", ":s $6162", ":s ~", ":b 1", ":b 0"])
+STALE_NAMED = [":m $010203", ":m $", dval(0x3ff8000000000000, 0), dval(0x4000000000000000, 0x7ff0000000000000)]
+STALE_FEW = [ival(3, (1 << 32) + 7), ival(4, -1), ival(5, (1 << 64) - (1 << 32)), dval(0x3ff8000000000000), ":p 7ffdeadbeef0", ":s $6162", ":b 1"]
+LAST_OTHERS = [":b 0", ":b 1", dval(0), dval(0x3ff8000000000000), dval(0x7ff8000000000000), dval(0xfff0000000000000), dval(0x8000000000000000), dval(1),
+               ":s ~", ":s $", ":s $6162", ":s $61620063", ":p 0", ":p 1000", ":p ffffffff00000000", ":cp 0", ":cp 1008", ":f 0", ":f 1010"]
+LAST_NAMED = [":m $", ":m $0102", ":m $010203", dval(0x3ff8000000000000, 0), dval(0x3ff0000000000000, 0x3fe0000000000000)]
+
+
+def same_number_elsewhere(v, k=0):
+    """the integer of v in another type that holds it (None if there is none)"""
+    t = v.split()
+    ty, z = int(t[1], 16), int(t[2], 16)
+    cands = [u for u in range(6) if u != ty and LO[u] <= z <= HI[u]]
+    return ival(cands[k % len(cands)], z) if cands else None
+
+
+def reuse_family(tier, rng):
+    out = []
+    ints = [ival(t, z) for t in range(6) for z in RLAT if LO[t] <= z <= HI[t]]
+
+    def partners(first, last, k):
+        """objects B to compare with: new with the last value; new with the EARLIER value; the same number in another type on a re-used object"""
+        bs = [[last], [first]]
+        if last.startswith(":i"):
+            o = same_number_elsewhere(last, k)
+            if o:
+                bs.append([first, o])
+        return bs
+
+    k = 0
+    for box in BOXES:
+        stale = [v for v in STALE + (STALE_NAMED if box == ":named" else []) if box_takes(box, v)]
+        lasts = [v for v in ints + LAST_OTHERS + (LAST_NAMED if box == ":named" else []) if box_takes(box, v)]
+        for first in stale:
+            for last in lasts:
+                k += 1
+                bs = partners(first, last, k)
+                if box != ":named":          # the other boxes: one partner for a non-integer, the new object and one more for an integer
+                    bs = bs[:1] + [bs[1 + k % (len(bs) - 1)]] if last.startswith(":i") else [bs[k % len(bs)]]
+                for b in bs:
+                    out.append(ru(box, ":nv", [first, last], b))
+        # three stores in a row
+        for first in stale[::3]:
+            for mid in stale[1::4]:
+                for last in lasts[::5]:
+                    out.append(ru(box, ":nv", [first, mid, last], [last]))
+        # the call families on a re-used return value
+        if box in (":ret", ":retc"):
+            for fam in FAMS[1:]:
+                for first in STALE_FEW:
+                    for last in ints + LAST_OTHERS[:2] + [dval(0x3ff8000000000000), ":s $6162", ":p 1000", ":cp 1008", ":f 1010"]:
+                        k += 1
+                        if box == ":ret" or k % 2:
+                            out.append(ru(box, fam, [first, last], [last] if k % 3 else [first]))
+    # the other object re-used as well, and the expectation side / the actual side swapped
+    for first in STALE_FEW:
+        for last in ints[::2]:
+            out.append(ru(":named", ":nv", [last], [first, last]))
+            o = same_number_elsewhere(last, 1)
+            if o:
+                out.append(ru(":named", ":nv", [first, o], [STALE_FEW[(len(out)) % len(STALE_FEW)], last]))
+    n = 1500 if tier == "quick" else 60000
+    pool = STALE + LAST_OTHERS + ints
+    for _ in range(n):
+        box = rng.choice(BOXES)
+        fam = ":nv" if box in (":named", ":data", ":datac") or rng.random() < 0.4 else rng.choice(FAMS)
+
+        def rv(b):
+            c = rng.random()
+            if c < 0.5:
+                t = rng.randrange(6)
+                z = rng.choice(RLAT) + rng.randrange(-2, 3) if rng.random() < 0.6 else rng.randrange(LO[t], HI[t] + 1)
+                v = ival(t, min(max(z, LO[t]), HI[t]))
+            elif c < 0.6:
+                v = dval(rng.choice(DBL) if rng.random() < 0.6 else rng.getrandbits(64), DTOL if b != ":named" or rng.random() < 0.5 else rng.choice([0, 0x3fe0000000000000]))
+            elif c < 0.7:
+                v = "%s %x" % (rng.choice([":p", ":cp", ":f"]), rng.choice([0, 0x1000, rng.getrandbits(64), rng.getrandbits(47)]))
+            else:
+                v = rng.choice(pool + STALE_NAMED + LAST_NAMED)
+            return v if box_takes(b, v) else ival(rng.randrange(2), rng.randrange(0, 1 << 31))
+        a = [rv(box) for _ in range(rng.choice([1, 2, 2, 2, 3, 3, 4]))]
+        c = rng.random()
+        if c < 0.35:
+            b = [a[-1]]
+        elif c < 0.55 and len(a) > 1:
+            b = [a[-2]]
+        elif c < 0.8 and a[-1].startswith(":i") and same_number_elsewhere(a[-1]):
+            b = [rv(":named") for _ in range(rng.randrange(3))] + [same_number_elsewhere(a[-1], rng.randrange(6))]
+        else:
+            b = [rv(":named") for _ in range(rng.choice([1, 2, 3]))]
+        out.append(ru(box, fam, a, b))
+    return out
+
+
 
 def others():
     vs = [":b 0", ":b 1"]
@@ -223,6 +389,7 @@ def generate(tier, rng):
                         out.append(a + " " + b)
     out += alias_family(tier, rng)
     out += read_family(tier, rng)
+    out += reuse_family(tier, rng)
     n = 3000 if tier == "quick" else 200000
     for _ in range(n):
         t1, t2 = rng.randrange(6), rng.randrange(6)
@@ -258,6 +425,9 @@ def rd_parts(s):
 
 def nontrivial(s):
     t = s.split()
+    if t[0] == ":ru":
+        box, fam, a, b = ru_parse(s)
+        return len(a) > 1 or len(b) > 1
     if t[0] == ":rd":
         return t[4] != ":none"
     if t[0] in (":am", ":as"):
@@ -285,8 +455,15 @@ def stored_kind(st):
     return {":none": "nothing", ":b": "bool", ":d": "double", ":s": "string", ":p": "void*", ":cp": "const void*", ":f": "function pointer", ":m": "memory buffer"}[st[0]]
 
 
+def ru_label(a):
+    return "%s stored over %s" % (vkind(a[-1]), vkind(a[-2])) if len(a) > 1 else "a single store"
+
+
 def classify(s):
     t = s.split()
+    if t[0] == ":ru":
+        box, fam, a, b = ru_parse(s)
+        return ["re-used %s: %s" % (box, ru_label(a)), "re-used %s read through %s" % (box, fam), "re-used: %d stores / partner %d stores" % (len(a), len(b))]
     if t[0] == ":rd":
         fam, via, acc, st, d = rd_parts(s)
         return ["read %s: %s accessor of stored %s" % (fam, "integer" if acc in INT_ACCS else "other",
@@ -302,6 +479,9 @@ def classify(s):
 
 def signature(s, o):
     t = s.split()
+    if t[0] == ":ru":
+        box, fam, a, b = ru_parse(s)
+        return "re-used %s read through %s: %s" % (box, fam, ru_label(a))
     if t[0] == ":rd":
         fam, via, acc, st, d = rd_parts(s)
         return "read %s %s of stored %s" % (fam, acc, stored_kind(st))
@@ -315,6 +495,41 @@ def shrink(s):
     """aliased scenarios: cut unused arena bytes, then shorten the windows; reads: C++ store path, plain default, a stored integer
     of smaller magnitude (boundary values first)"""
     t = s.split()
+    if t[0] == ":ru":
+        box, fam, a, b = ru_parse(s)
+        a = [" ".join(v) for v in a]; b = [" ".join(v) for v in b]
+        # fewer stores, the plainest box and family, the partner a new object; then smaller numbers
+        if len(b) > 1:
+            yield ru(box, fam, a, b[-1:])
+            yield ru(box, fam, a, b[1:])
+        for i in range(len(a) - 1):
+            yield ru(box, fam, a[:i] + a[i + 1:], b)
+        if fam != ":nv":
+            yield ru(box, ":nv", a, b)
+        if box == ":retc":
+            yield ru(":ret", fam, a, b)
+        if box == ":datac":
+            yield ru(":data", fam, a, b)
+        if box != ":named" and fam == ":nv":
+            yield ru(":named", fam, a, b)
+        if b != a[-1:]:
+            yield ru(box, fam, a, a[-1:])
+        la, lb = a[-1].split(), b[-1].split()
+        if la[0] == ":i" and lb[0] == ":i" and la[2] == lb[2]:          # the same number on both sides: shrink it on both
+            ta, tb_, z = int(la[1], 16), int(lb[1], 16), int(la[2], 16)
+            for c in sorted(set(c for c in RLAT + [7, z // 2] if abs(c) < abs(z) and LO[ta] <= c <= HI[ta] and LO[tb_] <= c <= HI[tb_]), key=abs):
+                yield ru(box, fam, a[:-1] + [ival(ta, c)], b[:-1] + [ival(tb_, c)])
+        for (l, which) in ((a, 0), (b, 1)):
+            for i in range(len(l) - 1, -1, -1):
+                v = l[i].split()
+                if v[0] == ":i":
+                    ty = int(v[1], 16); z = int(v[2], 16)
+                    cands = sorted(set(c for c in RLAT + [7, (1 << 32) + 7, z // 2, 1 << max(abs(z).bit_length() - 1, 0), -(1 << max(abs(z).bit_length() - 1, 0))]
+                                       if abs(c) < abs(z) and LO[ty] <= c <= HI[ty]), key=abs)
+                    for c in cands:
+                        l2 = l[:i] + [ival(ty, c)] + l[i + 1:]
+                        yield ru(box, fam, l2, b) if which == 0 else ru(box, fam, a, l2)
+        return
     if t[0] == ":rd":
         fam, via, acc, st, d = rd_parts(s)
         if via == ":c":
@@ -355,11 +570,15 @@ LEVEL_TEXT = ("Machine-checked (Coq) theorems over an executable model of MockNa
               "usual arithmetic conversions written out) and of the six integer getters: equality iff same mathematical integer, symmetry, "
               "cross-kind inequality, NaN, getter exactness/totality; every family of read-back accessors (actual call, MockSupport, the C table, the "
               "MockValue_c union; with and without default) is proved to hand back the exact stored integer or nothing, and a value of its own type only; for strings and memory buffers that share one allocation the model compares at "
-              "addresses (MemCmp loop over one arena) and is proved to answer by length and content only, whatever the addresses. Tied to the code by an exhaustive lattice + random differential run of the "
+              "addresses (MemCmp loop over one arena) and is proved to answer by length and content only, whatever the addresses; re-used value objects "
+              "(a second / third store into one MockNamedValue, return value or setData slot) are modelled with the stale bytes of the union kept in the state, "
+              "and every read and both comparisons are proved to be functions of the last store only. Tied to the code by an exhaustive lattice + random differential run of the "
               "extracted model against the real class, with the extracted spec evaluated on the implementation's answers.")
 LEVEL_NOTE = ("Trusted: Coq kernel, extraction (ExtrOcamlBasic), the harness and generators, LP64. Modelled not verified: the C++ itself; doubles other "
               "than NaN are decided by C03's model of doubles_equal; custom-type comparators are outside the model; the accessor forwarding table is "
-              "hand-written and tied to the code by observation (spec constrains integer read-back only; the other accessors are compared with the model). Flocq brings the stdlib axioms "
+              "hand-written and tied to the code by observation (spec constrains integer read-back only; the other accessors are compared with the model); "
+              "the union layout of the re-used object (little endian, which bytes each setter writes) is hand-written too, and the harness decides a failed STRCMP_EQUAL "
+              "of a getter in a shell of its own (QuietShell: the library's StrCmp, no failure text) for the re-use scenarios. Flocq brings the stdlib axioms "
               "classic, functional_extensionality_dep, sig_forall_dec, sig_not_dec (named by Print Assumptions in the evidence).")
 TECHNIQUE = "Coq proof over hand-written executable model + extracted-model/implementation correspondence check (differential, exhaustive boundary lattice)"
 READY = True
